@@ -71,7 +71,7 @@ def env_sink_emit(ex, args, callee):
         failed = True
     else:
         f = ex.fresh('emit_fail', 'bool')
-        failed = ex.choose([z3.Not(f), f]) == 1
+        failed = ex.choose([z3.Not(f), f], free=True) == 1
     if failed:
         e = io_error(ex, 'sink-emit-%d' % len(ex.events))
         ex.events.append(('emit', s, 'err', e))
@@ -82,7 +82,7 @@ def env_sink_emit(ex, args, callee):
 
 def env_sink_flush(ex, args, callee):
     f = ex.fresh('flush_fail', 'bool')
-    if ex.choose([z3.Not(f), f]) == 1:
+    if ex.choose([z3.Not(f), f], free=True) == 1:
         e = io_error(ex, 'sink-flush')
         ex.events.append(('sink_flush', 'err', e))
         return err(e)
@@ -584,7 +584,8 @@ class CallChecker:
         ex = self.ex
         self.findings.append({'prop': prop, 'clause': clause, 'detail': detail, 'neg': neg if neg is not None else z3.BoolVal(True),
                               'pc': list(ex.assumptions) + list(ex.pc), 'ep': self.ep, 'cfg': self.cfg,
-                              'events': [e[:3] for e in ex.events]})
+                              'events': [e[:3] for e in ex.events], 'full_events': list(ex.events),
+                              'streq': dict(getattr(ex, 'streq_vars', {}))})
 
     def oblige(self, prop, clause, cond, detail):
         """Deferred: all obligations of a path are discharged by one query (individually only if that is sat)."""
